@@ -117,15 +117,15 @@ def run(cx):
               f"`@{norm(cd[0])}` caches results by argument *equality*: after a valid colour (7, (1,2,3)) an equal-comparing invalid one (7.0, True, (1.0,2.0,3.0)) "
               f"hits the cache and is never validated (no ValueError), and outputs acquire a memory", stmt=f"def {f.name}(...) [decorators]")
     # ------------------------------------------------------------------ R09b / R09d in make
-    _check_make(cx, make, elem, sh)
+    cx.guard(_check_make, cx, make, elem, sh)
     # ------------------------------------------------------------------ R09g / R09f in _make_seq_element
-    _check_elem(cx, elem, mod)
+    cx.guard(_check_elem, cx, elem, mod)
     # ------------------------------------------------------------------ R09c chunk construction sites
-    _check_chunk_sites(cx, repo)
+    cx.guard(_check_chunk_sites, cx, repo)
     # ------------------------------------------------------------------ R09e formatter siblings
-    _check_formatters(cx, repo, make)
+    cx.guard(_check_formatters, cx, repo, make)
     # ------------------------------------------------------------------ rendering order
-    _check_str(cx, repo)
+    cx.guard(_check_str, cx, repo)
 
 
 def _nonempty(r):
